@@ -358,7 +358,7 @@ class SWorld:
             flags = (int(sc._active) + 2 * int(sc._cancel_called) + 4 * int(sc._cancelled_caught)
                      + 8 * int(sc._shield) + 16 * int(sc._cancel_handle is not None)
                      + 32 * int(sc._timeout_handle is not None))
-            dl = -1 if sc._deadline == math.inf else int(sc._deadline)
+            dl = -1 if sc._deadline == math.inf else (0 if sc._deadline == -math.inf else int(sc._deadline))
             out += [flags, sc._pending_uncancellations or 0, dl, self.tid_of_task(sc._host_task),
                     self.sid(sc._parent_scope), len(sc._tasks), len(sc._child_scopes)]
         out.append(len(self.groups))
@@ -402,16 +402,24 @@ class SWorld:
         anyio = self.anyio
         inf = math.inf
 
+        def fdl(x):
+            # deadline 0 lies in the past (or is "now") at every moment of a run; it is passed as -inf every other
+            # time: "already expired" is commonly written that way (current_effective_deadline() returns it inside
+            # a cancelled scope) and must behave like any other past deadline.  Deterministic in the op index.
+            if x == 0 and (len(w.ops) // 4) % 2 == 0:
+                return -inf
+            return float(x)
+
         async def newscope(p):
             # the public constructors are glue over the same scope: rotate through them (deterministic in the index)
             k = len(w.scopes) % 3
             now = w.loop.time()
             if k == 0:
-                anyio.CancelScope(deadline=(inf if b < 0 else float(b)), shield=bool(d))
+                anyio.CancelScope(deadline=(inf if b < 0 else fdl(b)), shield=bool(d))
             elif k == 1:
-                anyio.move_on_at(None if b < 0 else float(b), shield=bool(d))
+                anyio.move_on_at(None if b < 0 else fdl(b), shield=bool(d))
             else:
-                anyio.move_on_after(None if b < 0 else float(b) - now, shield=bool(d))
+                anyio.move_on_after(None if b < 0 else fdl(b) - now, shield=bool(d))
             w.fresh.add(len(w.scopes))
             w.public_scopes.append(len(w.scopes))
             return len(w.scopes)
@@ -434,9 +442,9 @@ class SWorld:
 
         async def failat(p):
             if len(w.scopes) % 2 == 0:
-                cm = anyio.fail_at(None if b < 0 else float(b), shield=bool(d))
+                cm = anyio.fail_at(None if b < 0 else fdl(b), shield=bool(d))
             else:
-                cm = anyio.fail_after(None if b < 0 else float(b) - w.loop.time(), shield=bool(d))
+                cm = anyio.fail_after(None if b < 0 else fdl(b) - w.loop.time(), shield=bool(d))
             cm.__enter__()
             p.failat_cms[len(w.scopes)] = cm
             w.public_scopes.append(len(w.scopes))
@@ -449,7 +457,7 @@ class SWorld:
             w.scopes[b - 1].shield = bool(d)
 
         async def setdeadline(p):
-            w.scopes[b - 1].deadline = inf if d < 0 else float(d)
+            w.scopes[b - 1].deadline = inf if d < 0 else fdl(d)
 
         async def gnew(p):
             w.groups.append(anyio.create_task_group())
